@@ -364,8 +364,9 @@ OutsAssoc(w, e) ==
         \* left fold of RemoveValue over ks, collecting results
         RF[i \in 0..Len(ks)] ==
             IF i = 0 THEN [ps |-> ps, out |-> <<>>]
-            ELSE [ps |-> CatDel(RF[i - 1].ps, ks[i]),
-                  out |-> Append(RF[i - 1].out, Lookup(RF[i - 1].ps, ks[i]))] IN
+            ELSE LET prev == RF[i - 1] IN          \* one evaluation per level (three would be 3^n)
+                 [ps |-> CatDel(prev.ps, ks[i]),
+                  out |-> Append(prev.out, Lookup(prev.ps, ks[i]))] IN
     CASE e.m = "GetValue"     -> {Ret(TokR(Lookup(ps, a[1])), w)}
       [] e.m = "SetValue"     -> {Ret(None, Put(IF ordered THEN CatPut(ps, a[1], a[2]) ELSE MapPut(ps, a[1], a[2])))}
       [] e.m = "RemoveValue"  -> {Ret(TokR(Lookup(ps, a[1])), Put(CatDel(ps, a[1])))}
@@ -409,8 +410,9 @@ OutsClass(w, e) ==
              LET c == w[a[1]].s  ks == Elems(w[a[2]])
                  F[i \in 0..Len(ks)] ==
                      IF i = 0 THEN <<>>
-                     ELSE IF HasKey(c, ks[i]) /\ ~HasKey(F[i - 1], ks[i])
-                          THEN Append(F[i - 1], <<ks[i], Lookup(c, ks[i])>>) ELSE F[i - 1] IN
+                     ELSE LET prev == F[i - 1] IN           \* one evaluation per level
+                          IF HasKey(c, ks[i]) /\ ~HasKey(prev, ks[i])
+                          THEN Append(prev, <<ks[i], Lookup(c, ks[i])>>) ELSE prev IN
              {New(w, MkCatalog(F[Len(ks)]))}
       [] e.k = "Map" /\ e.m = "Make"               -> {New(w, MkMap("Map", <<>>))}
       [] e.k = "Map" /\ e.m \in {"MakeFromArray", "MakeFromSequence", "MakeFromMap"}
